@@ -605,7 +605,9 @@ type prepareRequest struct {
 }
 
 func (r *prepareRequest) Execute(_ bool) {
-	panic("not implemented")
+	// Only reached when a server answers this `PREPARE` itself with an "unprepared" error (for a cached statement): the
+	// statement can't be prepared on this host, so the original request moves on to the next one.
+	r.origRequest.Execute(true)
 }
 
 func (r *prepareRequest) Frame() interface{} {
